@@ -5,8 +5,8 @@
    MISMATCH kinds: model (impl vs model of the code), spec (impl vs specification outside the
    known classes = a property violation).  Disagreements with the specification INSIDE a known
    class (Pos.Spec.KnownClass_pos / KnownClass_span) are counted (#RUNNER known_class) and, with
-   argument `showknown`, printed as MISMATCH known.  Argument `fx=1` selects the model and the known
-   classes of the patched Error::new_from_span (the driver probes the tree). *)
+   argument `showknown`, printed as MISMATCH known.  Argument `fx=<c><e>` selects the model and the
+   known classes of the (partly) patched Error::new_from_span (the driver probes the tree). *)
 open Pos_model
 open Runner_common
 type string = String.t   (* the extracted module defines its own string/char/length *)
@@ -61,8 +61,11 @@ let esc (s : string) : string =
   Buffer.contents b
 
 let msg : str = to_str "E"
-(* model flag: true = tree with fixes/C10-1-continued-line-visualize.patch (argument fx=1) *)
-let fx : bool = Array.exists (fun a -> a = "fx=1") Sys.argv
+(* model flags (argument fx=<c><e>): c = 1 tree with fixes/C10-1-continued-line-visualize.patch,
+   e = 1 tree with fixes/C10-2-empty-span-at-end-line.patch *)
+let fx : fixes =
+  let has a = Array.exists (fun x -> x = a) Sys.argv in
+  { fix_continued = has "fx=10" || has "fx=11"; fix_eoi_line = has "fx=01" || has "fx=11" }
 let lc (l, c) = Printf.sprintf "%d,%d" (n2i l) (n2i c)
 let rng (a, b) = Printf.sprintf "%d-%d" (n2i a) (n2i b)
 let res_str f = function Ok x -> f x | Panic -> "PANIC" | Diverge -> "DIVERGE"
